@@ -343,6 +343,59 @@ fn sweep_catalog_wrap(rep: &Reporter, c: &Counters, thorough: bool) -> usize {
     n
 }
 
+/// Histories of two memory operands: EVERY ordered pair over (26 address forms x {no override, ES, SS, CS} x
+/// {load, store}), executed one after the other by ONE Interpreter object on ONE machine and compared with the
+/// reference after each step. All four segment registers differ and every cell an operand of the alphabet can name
+/// under any of them holds its own value, so an operand resolved with the segment (or any other part) of the
+/// operand before it reads or writes a recognisably wrong cell.
+fn sweep_form_pairs(rep: &Reporter, c: &Counters, thorough: bool) -> crate::seqx::SeqStats {
+    let mut forms: Vec<MemForm> = vec![MemForm::Direct(0x0010), MemForm::Direct(0x0123)];
+    for r in [R_BX, R_BP, R_SI, R_DI] {
+        forms.push(MemForm::Reg(r));
+        for d in [2, -1] {
+            forms.push(MemForm::RegDisp(r, d));
+        }
+    }
+    for b in [R_BX, R_BP] {
+        for i in [R_SI, R_DI] {
+            forms.push(MemForm::BaseIndex(b, i, None));
+            for d in [2, -1] {
+                forms.push(MemForm::BaseIndex(b, i, Some(d)));
+            }
+        }
+    }
+    let overrides: Vec<Option<usize>> = if thorough { vec![None, Some(0), Some(1), Some(2), Some(3)] } else { vec![None, Some(SEG_ES), Some(SEG_SS), Some(SEG_CS)] };
+    let mut focus: Vec<Instr> = Vec::new();
+    let mut mems: Vec<Mem> = Vec::new();
+    for f in forms.iter() {
+        for o in overrides.iter() {
+            let m = Mem { seg: *o, form: *f };
+            mems.push(m);
+            focus.push(Instr::Mov(Opnd::R8(2), Opnd::Mem(W::B, m)));
+            focus.push(Instr::Mov(Opnd::Mem(W::B, m), Opnd::Imm(0x5A)));
+        }
+    }
+    let mut init = RefM { r: Regs::distinct(0x31), m: SMem::new(0), call_stack: vec![] };
+    init.r.flag = 0xF000;
+    init.r.ds = 0x1000;
+    init.r.es = 0x2000;
+    init.r.ss = 0x3000;
+    init.r.cs = 0x4000;
+    init.r.set16(R_BX, 0x0100);
+    init.r.set16(R_BP, 0x0200);
+    init.r.set16(R_SI, 0x0010);
+    init.r.set16(R_DI, 0x0020);
+    init.r.sp = 0x0800;
+    for m in mems.iter() {
+        let off = ea_offset(m, &init.r);
+        for (k, sv) in [init.r.ds, init.r.es, init.r.ss, init.r.cs].iter().enumerate() {
+            let a = phys(*sv, off);
+            init.m.set(a, (0x11 + 0x40 * k as u32 + (off as u32 * 7)) as u8 | 1);
+        }
+    }
+    crate::seqx::explore_sequences(rep, c, &focus, &[], 2, &[init])
+}
+
 /// data-label operands with DS in S6
 fn sweep_labels(rep: &Reporter, c: &Counters) {
     let mut is: Vec<Instr> = Vec::new();
@@ -493,11 +546,12 @@ pub fn run(tier: &Tier) -> i32 {
     let n_wrap = sweep_catalog_wrap(&rep, &c, tier.thorough);
     sweep_labels(&rep, &c);
     let n_lab_top = sweep_labels_top(&rep, &c);
+    let pairs = sweep_form_pairs(&rep, &c, tier.thorough);
     sweep_byte_alias(&rep, &c);
     let mut cov = Coverage::default();
     cov.exhaustive = true;
-    cov.rule = "every case = (consumer instruction with one memory operand, pre-state): all address forms of syntax.md (direct, indirect, based, indexed, based-indexed, with 8 displacements incl. negative and wrapping ones) x {no override, ES, CS, SS, DS} x both widths x 12 consumers (loads, stores, read-modify-writes, xchg, lea, destination aliasing an address register) x base/index register lattice x 6 segment values chosen so that seg*16+off straddles 2^20, plus, for every shape, register values solved so that seg*16+off is exactly 0xFFFFE, 0xFFFFF, 2^20, 2^20+1, 2^20+2 for three segment values. The operand value sits only at the reference address; decoy markers sit at the same offset in the other segments, at the unwrapped offset and at the neighbouring bytes; the whole 1 MB is compared after every execution. Plus EVERY shape of the instruction catalog that has a register-based memory operand (all instruction kinds) with the operand solved to lie at 0xFFFFE, 0xFFFFF and 2^20 for two segment values. Plus EVERY catalog shape with a data-label operand with the label at offset 15 / 16 / 17 under DS = 0xFFFF, 0xFFFE, 0x0FFF (last byte of memory, word across the end). Plus data-label operands with 6 DS values and byte-register aliasing (8 registers x 256 values x parent lattice)".into();
-    cov.bounds = json!({"mem_shapes": n, "catalog_shapes_at_the_top_of_memory": n_wrap, "label_shapes_at_the_top_of_memory": n_lab_top, "register_values": if tier.thorough {15} else {4}, "segments": if tier.thorough {10} else {6}, "tier": tier.name()});
+    cov.rule = "every case = (consumer instruction with one memory operand, pre-state): all address forms of syntax.md (direct, indirect, based, indexed, based-indexed, with 8 displacements incl. negative and wrapping ones) x {no override, ES, CS, SS, DS} x both widths x 12 consumers (loads, stores, read-modify-writes, xchg, lea, destination aliasing an address register) x base/index register lattice x 6 segment values chosen so that seg*16+off straddles 2^20, plus, for every shape, register values solved so that seg*16+off is exactly 0xFFFFE, 0xFFFFF, 2^20, 2^20+1, 2^20+2 for three segment values. The operand value sits only at the reference address; decoy markers sit at the same offset in the other segments, at the unwrapped offset and at the neighbouring bytes; the whole 1 MB is compared after every execution. Plus EVERY shape of the instruction catalog that has a register-based memory operand (all instruction kinds) with the operand solved to lie at 0xFFFFE, 0xFFFFF and 2^20 for two segment values. Plus EVERY catalog shape with a data-label operand with the label at offset 15 / 16 / 17 under DS = 0xFFFF, 0xFFFE, 0x0FFF (last byte of memory, word across the end). Plus histories: every ordered pair over 26 address forms x {none, ES, SS, CS} x {load, store} on one Interpreter object with four different segment values and every nameable cell distinct. Plus data-label operands with 6 DS values and byte-register aliasing (8 registers x 256 values x parent lattice)".into();
+    cov.bounds = json!({"mem_shapes": n, "catalog_shapes_at_the_top_of_memory": n_wrap, "label_shapes_at_the_top_of_memory": n_lab_top, "operand_pair_histories": pairs.sequences, "operand_pair_steps": pairs.steps, "register_values": if tier.thorough {15} else {4}, "segments": if tier.thorough {10} else {6}, "tier": tier.name()});
     cov.assumptions = common_assumptions();
     cov.assumptions.push("physical address = (segment*16 + ((base+index+disp) mod 2^16)) mod 2^20; default segment SS iff BP is the base".into());
     let cov = finish_cov(&c, cov);
